@@ -274,6 +274,10 @@ register(Contract(
         'h-level-1': 'all(%s for p in predecessors)' % H_L1,
         'h-same-keys': 'all(set(s.graph) == set(%s) for s in all_subs())' % G,
         'h-same-fields': 'all(ib_plain(%s, s.graph[k]) and ib_branch(%s, s.graph[k]) %s)' % (B, B, ALLSUBS),
+        'h-wf': 'nesting_wf()',
+        # sub-graphs that are not below a region predecessor are not written
+        'h-untouched': 'all(same_graph(s) for s in all_subs() if not any(isinstance(old.self.graph[q], RegionBlock)'
+                       ' and chain_root(s) == chain_root(old.self.graph[q].subregion) for q in predecessors))',
     },
     loops={
         'for name in predecessors': LoopSpec(inv={
@@ -296,4 +300,113 @@ register(Contract(
                   ' len(new_block.jump_targets) == len(block.jump_targets))',
     }},
     properties=['C14', 'C04'], gen='insert', slices=4,
+))
+
+# ---- the typed wrappers: their hierarchy views follow from insert_block's two views
+for _meth in ('insert_SyntheticExit', 'insert_SyntheticTail', 'insert_SyntheticReturn', 'insert_SyntheticFill'):
+    _wm = _REG[SC + ':SCFG.' + _meth]
+    _wreq = dict(_wm.requires)
+    _wreq.update(HIER_REQ)
+    register(Contract(
+        qual=SC + ':SCFG.%s#hier' % _meth, view_of=SC + ':SCFG.' + _meth, params=dict(_wm.params), heap=True,
+        modifies=['self.graph', '$heap'], known=dict(_wm.known), requires=_wreq,
+        ensures={
+            'h-level-1': 'all(%s for p in predecessors)' % H_L1,
+            'h-same-keys': 'all(set(s.graph) == set(%s) for s in all_subs())' % G,
+            'h-same-fields': 'all(ib_plain(%s, s.graph[k]) and ib_branch(%s, s.graph[k]) %s)' % (B, B, ALLSUBS),
+            'h-wf': 'nesting_wf()',
+            'h-untouched': 'all(same_graph(s) for s in all_subs() if not any(isinstance(old.self.graph[q], RegionBlock)'
+                           ' and chain_root(s) == chain_root(old.self.graph[q].subregion) for q in predecessors))',
+        },
+        hints={'h-level-1': ['h-level-1'], 'h-same-keys': ['h-same-keys'], 'h-same-fields': ['h-same-fields'], 'h-wf': ['h-wf'],
+               'h-untouched': ['h-untouched']},
+        properties=['C14', 'C04'], gen='insert',
+    ))
+
+
+# ---- join_tails_and_exits: every tail that is a region has its exiting block re-targeted with it (through the views of
+# the typed wrappers it calls)
+_jm = _REG[SC + ':SCFG.join_tails_and_exits']
+_TN = 'block_name("synth_tail", get(self.name_gen.kinds, "synth_tail", 0))'
+_EN = 'block_name("synth_exit", get(self.name_gen.kinds, "synth_exit", 0))'
+
+
+def _for_tails(text, new_name):
+    return text.replace('predecessors', 'tails').replace('successors', 'exits').replace('new_name', new_name)
+
+
+_jreq = dict(_jm.requires)
+for _k, _v in HIER_REQ.items():
+    if _k == 'h-fwd':
+        _jreq['h-fwd-tail'] = _for_tails(_v, _TN)
+        _jreq['h-fwd-exit'] = _for_tails(_v, _EN)
+    else:
+        _jreq[_k] = _for_tails(_v, 'new_name')
+_JL1 = H_L1.replace('predecessors', 'tails')
+register(Contract(
+    qual=SC + ':SCFG.join_tails_and_exits#hier', view_of=SC + ':SCFG.join_tails_and_exits', params=dict(_jm.params), returns=_jm.returns,
+    heap=True, modifies=['self.graph', 'self.name_gen.kinds', '$heap'], known=dict(_jm.known), requires=_jreq,
+    ensures={
+        # whenever something is inserted (not the 1 tail / 1 exit case, where nothing changes)
+        'h-level-1': 'implies(not (len(tails) == 1 and len(exits) == 1), all(%s for p in tails))' % H_L1,
+        'h-same-keys': 'all(set(s.graph) == set(%s) for s in all_subs())' % G,
+        'h-same-fields': 'all(ib_plain(%s, s.graph[k]) and ib_branch(%s, s.graph[k]) %s)' % (B, B, ALLSUBS),
+        'h-wf': 'nesting_wf()',
+    },
+    properties=['C14', 'C04'], gen='tails_exits',
+))
+
+# ---- insert_block_and_control_blocks, hierarchy view: every re-routed arc of a region predecessor is re-routed in its
+# exiting chain as well (targets are renamed position by position, so the arity never changes)
+_cm = _REG[SC + ':SCFG.insert_block_and_control_blocks']
+_NOT_GEN = 'not (is_generated(t, "synth_asign") and gen_index(t) >= get(self.name_gen.kinds, "synth_asign", 0))'
+_creq = dict(_cm.requires)
+for _k in ('h-wf', 'h-roots', 'h-keys', 'h-exiting', 'h-branch', 'h-arity', 'h-top-exiting'):
+    _creq[_k] = HIER_REQ[_k]
+_creq['h-top-arity'] = ('all(%s == len(self.graph[p].jump_targets) for p in predecessors if %s and (isinstance(%s, RegionBlock)'
+                        ' or isinstance(%s, SyntheticBranch)))' % (RANK_PEX, IS_REG, PEX, PEX))
+# neither an old target nor a name the generator is about to hand out is a declared back edge of a block stored below
+_creq['h-fwd'] = ('all(all(%s for t in %s.backedges) and all(t not in %s.backedges for t in self.graph[p]._jump_targets)'
+                  ' for p in predecessors if %s %s)' % (_NOT_GEN, B, B, IS_REG, TREE))
+register(Contract(
+    qual=SC + ':SCFG.insert_block_and_control_blocks#hier', view_of=SC + ':SCFG.insert_block_and_control_blocks',
+    params=dict(_cm.params), heap=True, modifies=['self.graph', 'self.name_gen.kinds', '$heap'], locals=dict(_cm.locals), known=dict(_cm.known),
+    requires=_creq,
+    ensures={
+        'h-level-1': 'all(%s for p in predecessors)' % H_L1,
+        'h-same-keys': 'all(set(s.graph) == set(%s) for s in all_subs())' % G,
+        'h-same-fields': 'all(ib_plain(%s, s.graph[k]) and ib_branch(%s, s.graph[k]) %s)' % (B, B, ALLSUBS),
+        'h-wf': 'nesting_wf()',
+    },
+    loops={
+        'for name in predecessors': LoopSpec(inv={
+            'h-done': 'all(%s for p in _i_seen)' % H_L1,
+            'h-untouched': 'all(same_graph(s) for s in all_subs() if not any(isinstance(old.self.graph[q], RegionBlock)'
+                           ' and chain_root(s) == chain_root(old.self.graph[q].subregion) for q in _i_seen))',
+            'h-wf': 'nesting_wf()',
+            'h-same-keys': 'all(set(s.graph) == set(%s) for s in all_subs())' % G,
+            'h-same-fields': 'all(ib_plain(%s, s.graph[k]) and ib_branch(%s, s.graph[k]) %s)' % (B, B, ALLSUBS),
+        }),
+        'for s in sorted(set(jt).intersection(successors))': LoopSpec(index='_j', inv={
+            # the inner loop only adds blocks
+            'h-old-same': 'all(k in self.graph and same_value(self.graph[k], entry.self.graph[k]) for k in entry.self.graph)'}),
+    },
+    cuts={'self._sync_exiting(': {
+        'cur-new': 'name not in _i_seen and name in predecessors and block == old.self.graph[name]',
+        'nb-same-sub': 'replaced.subregion == block.subregion and replaced.exiting == block.exiting'
+                       ' and isinstance(replaced, RegionBlock) == isinstance(block, RegionBlock) and len(replaced.backedges) == 0',
+        'tree-same': 'implies(isinstance(block, RegionBlock), all(same_graph(s) for s in all_subs()'
+                     ' if chain_root(s) == chain_root(block.subregion)))',
+        'nb-len': 'len(replaced.jump_targets) == len(block.jump_targets)',
+        'nb-targets': 'all(t in block._jump_targets or (is_generated(t, "synth_asign")'
+                      ' and gen_index(t) >= get(old.self.name_gen.kinds, "synth_asign", 0)) for t in replaced.jump_targets)',
+    }, 'end:for name in predecessors': {
+        'e-seen': 'all(p != name and same_value(self.graph[p], it0.self.graph[p]) for p in _i_seen)',
+        'e-cur': 'self.graph[name] == replaced',
+        'e-heap-seen': 'all(same_value(graph_now(old.self.graph[p].subregion), graph_before(old.self.graph[p].subregion))'
+                       ' for p in _i_seen if isinstance(old.self.graph[p], RegionBlock))',
+        'e-done-seen': 'all(%s for p in _i_seen)' % H_L1,
+        'e-done-cur': 'all(%s for p in predecessors if p == name)' % H_L1,
+    }},
+    properties=['C14', 'C04'], gen='insert_ctrl', slices=4,
 ))
